@@ -10,6 +10,10 @@
      [op |-> "basync", i]   dispatch_barrier_async
      [op |-> "sync",   i]   dispatch_sync
      [op |-> "bsync",  i]   dispatch_barrier_sync
+     [op |-> "aaw",    i]   dispatch_async_and_wait / dispatch_barrier_async_and_wait (Kind "rw" / "bw"): on a lane
+                            anchored at a default root queue it takes the synchronous paths on the calling thread
+                            (_dispatch_async_and_wait_recurse), but always completes through _dispatch_sync_complete_recurse
+                            (barrier_complete / non_barrier_complete), never through the cheap serial unlock
      [op |-> "suspend"] / [op |-> "resume"] / [op |-> "activate"]
    Item bodies may call dispatch_suspend on the lane (Body[i] = "suspend").
 
@@ -44,8 +48,8 @@ VARIABLES st,              \* dq_state (DQState record)
 vars == <<st, sideCnt, sideLock, head, tail, nxt, root, pc, lv, ip, ev, running, runCount, done, ref, pred,
           susp, ownSusp, lateStarts, activated, bad>>
 
-IsBarrier(i) == Kind[i] \in {"ba", "bs"} \/ W = 1      \* everything is a barrier on a serial lane
-IsWaiter(i) == Kind[i] \in {"rs", "bs"}
+IsBarrier(i) == Kind[i] \in {"ba", "bs", "bw"} \/ W = 1      \* everything is a barrier on a serial lane
+IsWaiter(i) == Kind[i] \in {"rs", "bs", "rw", "bw"}
 L0 == [dc |-> NULL, n |-> NULL, prev |-> NULL, item |-> NULL, owned |-> Owned0, cons2 |-> FALSE, mkdirty |-> FALSE,
        mode |-> "none", ow |-> 0, ret |-> "none", old |-> Idle0, new |-> Idle0, fl2 |-> FALSE, qos |-> 0, act |-> FALSE]
 
@@ -73,13 +77,13 @@ SIDE == <<sideCnt, sideLock>>
 Start(c) ==
     /\ pc[c] = "idle" /\ ip[c] <= Len(Prog[c])
     /\ LET o == Prog[c][ip[c]] IN
-       CASE o.op \in {"async", "basync", "sync", "bsync"} ->
+       CASE o.op \in {"async", "basync", "sync", "bsync", "aaw"} ->
               /\ lv' = [lv EXCEPT ![c] = [L0 EXCEPT !.item = o.i, !.ret = "ret"]]
               /\ pred' = [pred EXCEPT ![o.i] = Returned]
               /\ Go(c, CASE Kind[o.i] = "ra" -> IF W = 1 THEN "push_tail" ELSE "cpush_tail"
                          [] Kind[o.i] = "ba" -> "push_tail"
-                         [] Kind[o.i] = "rs" -> IF W = 1 THEN (IF TailCheckFix THEN "bs_tail" ELSE "bs_fast") ELSE "rs_tail"
-                         [] Kind[o.i] = "bs" -> IF TailCheckFix THEN "bs_tail" ELSE "bs_fast")
+                         [] Kind[o.i] \in {"rs", "rw"} -> IF W = 1 THEN (IF TailCheckFix THEN "bs_tail" ELSE "bs_fast") ELSE "rs_tail"
+                         [] Kind[o.i] \in {"bs", "bw"} -> IF TailCheckFix THEN "bs_tail" ELSE "bs_fast")
               /\ UNCHANGED <<GH>>
          [] o.op = "suspend" -> /\ lv' = [lv EXCEPT ![c] = [L0 EXCEPT !.ret = "ret"]] /\ Go(c, "susp_rmw") /\ UNCHANGED <<pred, GH>>
          [] o.op = "resume"  -> /\ ("after" \in DOMAIN o => o.after \in running \cup done)   \* client waits for the suspending item
@@ -334,7 +338,7 @@ SyncDone(c) ==
     /\ pc[c] = "sync_done"
     /\ lv' = [lv EXCEPT ![c].ret = "ret", ![c].fl2 = FALSE, ![c].qos = 0]
     /\ Go(c, IF ~IsBarrier(lv[c].item) THEN "nbc_rmw"
-             ELSE IF W = 1 THEN "bsu_tail" ELSE "bc_tail")
+             ELSE IF W = 1 /\ Kind[lv[c].item] \notin {"rw", "bw"} THEN "bsu_tail" ELSE "bc_tail")
     /\ UNCHANGED <<st, SIDE, Q, root, ip, ev, RUN, ref, pred, GH>>
 \* _dispatch_lane_barrier_sync_invoke_and_complete: if (dq_items_tail || width > 1) barrier_complete else cheap unlock
 BsuTail(c) == /\ pc[c] = "bsu_tail" /\ Go(c, IF tail # NULL THEN "bc_tail" ELSE "bsu_rmw")
